@@ -9,7 +9,7 @@ __CPROVER_requires(ghost_ok == ghost_r && ghost_ik == 2 * ghost_r)
 /* ghost names of the element-check terms of card ghost_i (loop invariants must be call-free) */
 __CPROVER_requires(ghost_i < s2->stack.size ==> ghost_ce1 == CE(C1(s2, ghost_i)) && ghost_ce2 == CE(C2(s2, ghost_i)))
 #endif
-__CPROVER_assigns(in->pos, in->fail, in->ikev, out->acc, out->nput, out->okv, out->okev, __tmcg_thrown, MONITOR)
+__CPROVER_assigns(IOS_IN_ASSIGNS(in), out->acc, out->nput, out->okv, out->okev, __tmcg_thrown, MONITOR)
 /* C12: refusal is clean -- the only exception is the runtime_error of a malformed number */
 __CPROVER_ensures(__tmcg_thrown == 0 || (__tmcg_thrown == TMCG_EXC_runtime_error && in->fail))
 /* C04: an accepted proof has equal stack sizes and every card of the claimed shuffle is a group element */
@@ -37,7 +37,7 @@ __CPROVER_loop_invariant(i <= s2->stack.size)
 __CPROVER_loop_invariant(ghost_i < i ==> ghost_ce1 && ghost_ce2)
 __CPROVER_decreases(s2->stack.size - i)
 //@ loop 2
-__CPROVER_assigns(i, V(foo), V(bar), in->pos, in->fail, in->ikev, out->acc, out->nput, out->okv, out->okev, __tmcg_thrown, MONITOR)
+__CPROVER_assigns(i, V(foo), V(bar), IOS_IN_ASSIGNS(in), out->acc, out->nput, out->okv, out->okev, __tmcg_thrown, MONITOR)
 __CPROVER_loop_invariant(i <= LEVEL && __tmcg_thrown == 0 && bit_n == i && mix_n == i && hash_n == i && out->nput == i && in->pos == 2 * i && !in->fail)
 #ifdef PART_MONITOR
 __CPROVER_loop_invariant(ghost_r < i ==> (gr_bit == 0 || gr_bit == 1) && out->okv == gr_bit && in->ikev < out->okev
